@@ -413,7 +413,7 @@ def rule_entry(chk):
     import interp as I
     # construction sites in build_pipeline itself or in a closure of it (`stages.iter().map(|stage| CompiledPipelineStage {..})`)
     stages = [(a, b_) for b_ in [bp] + f.closures_of(bp["path"]) for a in F.exprs(b_["thir"], "Adt") if short(a["adt"]) == "CompiledPipelineStage"]
-    chk.floor("C05.floor/stage-sites", len(stages), 2, "CompiledPipelineStage construction sites", where(bp))
+    chk.floor("C05.floor/stage-sites", len(stages), 1, "CompiledPipelineStage construction sites", where(bp))
     tr = TF.Tracer(f, max_depth=2, no_inline=NAMEMAP + ("get_function_name",))
     msl_tab = {}
     all_stages = f.variants("ShaderStage", "rssl_ir") or []
